@@ -75,6 +75,13 @@ type BigVal struct{ t *Term } // Int sort; nil t = zero
 
 type Poison struct{ why string }
 
+// StubObj is an opaque object behind an interface: every method is a no-op returning zero values.
+type StubObj struct{ name string }
+
+var stubObjType = types.NewNamed(types.NewTypeName(0, nil, "gosym.stubObject", nil), types.NewStruct(nil, nil), nil)
+
+func mkStubIface(name string) Value { return Iface{t: stubObjType, v: StubObj{name}} }
+
 type mapEntry struct {
 	k, v Value
 	live bool
